@@ -1043,7 +1043,12 @@ def check_pc(ctx, case):
     import sympy
     import strawberryfields as sf
     from strawberryfields import parameters as P
+    from sympy.core.cache import clear_cache
 
+    # every case is its own process as far as sympy is concerned: expressions such as q38**2 are cached by NAME, so a case would otherwise
+    # be handed the expression object (and RegRef) of an earlier case's Program - the open finding F7, which the `isolation` sub-check
+    # and its replays cover; here it would be state leaking between cases
+    clear_cache()
     n = case["n"]
     fns = {"id": (lambda x: x, lambda x: x), "sin": (sympy.sin, np.sin), "exp": (sympy.exp, np.exp), "sq": (lambda x: x ** 2, lambda x: x ** 2), "neg": (lambda x: -x, lambda x: -x)}
     e, want = 0, 0.0
